@@ -35,7 +35,7 @@ ce = {
  "name":"changeElement_scaled",
  "function":"SPxLPBase<R>::changeElement(int i, int j, const R& val, bool scale)  [scale == true] + SPxScaler<R>::scaleElement, ::getCoefUnscaled",
  "cpp":["unit_ce.cpp"], "c":["contract_ce.c"], "harness":"h_ce", "enforce":"w_ce",
- "defines":{"CAP":"2","MATW":"3","WITH_GETTER":"","NO_FRAME":""},
+ "defines":{"CAP":"2","MATW":"3"},
  "slices":ce_slices, "unwind_loops":[{"function":"SVecF<signed_long_long_int>::pos0\\(\\$constthis\\)","loop":0}], "unwind":4, "conformance":CONF_ADD,
  "trusted":[
   "storage model (as unit lp_mirror, C06): each matrix copy is a flat array of Nonzero cells, vector v = cells [v*3, v*3+3), size[v] in use; at most CAP = 3 rows and 3 columns",
@@ -55,6 +55,12 @@ ce = {
   {"name":"scale_transposed","slice":"changeElement.inc","find":"lp_scaler->scaleElement(*this, i, j, val)","replace":"lp_scaler->scaleElement(*this, j, i, val)"},
   {"name":"scaleElement_minus","slice":"scaleElement.inc","find":"colscaleExp[col] + rowscaleExp[row]","replace":"colscaleExp[col] - rowscaleExp[row]"},
  ]}
+import copy
+rt = copy.deepcopy(ce)
+rt["name"] = "changeElement_roundtrip"
+rt["defines"] = {"CAP":"2","MATW":"3","WITH_GETTER":"","ONLY_GETTER":""}
+rt["mutants"] = [m for m in ce["mutants"] if m["name"] in ("seed_add2_unscaled","overwrite_col_copy_unscaled")] + [
+  {"name":"getter_forgets_row_exp","slice":"getCoefUnscaled.inc","find":"- rowscaleExp[row] - colscaleExp[col]","replace":"- colscaleExp[col]"}]
 unit = {
  "property":["C09"],
  "desc":"LP-level scaling, second part: changeElement(.., scale=true) round trip over real bodies; doAddRows/doAddCols (set variants) scaling region",
@@ -62,7 +68,7 @@ unit = {
  "flags":["--bounds-check","--pointer-check","--signed-overflow-check"],
  "timeout_s":300,
  "trusted":["R = ledger (spxLdexp(x,e)=x+e; infinity not preserved by ldexp, as SoPlex's 1e100)","two-base stub layout of README point 16; assert() compiled out (NDEBUG)"],
- "instances":[ce],
+ "instances":[ce, rt],
 }
 import os
 try:
